@@ -247,6 +247,63 @@ func TestC13_Sort(t *testing.T) {
 				in[i] = k
 			}
 		}
+		doc := jv.VObj([]jv.Member{{K: "a", V: jv.VArr(in)}})
+		// the subject is the member a itself, or a view of it: a window, a
+		// projection or a wrapper that an implementation may hand through
+		// without copying (sorting such a view in place changes the caller's
+		// array). Windows and projections omit null elements.
+		subject := ast.Expr(ast.F("a"))
+		if rapid.IntRange(0, 2).Draw(t, "view") == 0 {
+			lo, hi, prune := 0, n, true
+			switch rapid.IntRange(0, 7).Draw(t, "viewkind") {
+			case 0:
+				subject = ast.F("a").With(ast.Step{Kind: ast.SSlice})
+			case 1:
+				subject = ast.F("a").With(ast.Step{Kind: ast.SListStar})
+			case 2:
+				subject = ast.F("a").With(ast.Step{Kind: ast.SSlice, Start: ast.I64(0)})
+			case 3:
+				k := rapid.IntRange(1, 3).Draw(t, "viewlo")
+				if k > n {
+					k = n
+				}
+				lo = k
+				subject = ast.F("a").With(ast.Step{Kind: ast.SSlice, Start: ast.I64(int64(k))})
+			case 4:
+				k := rapid.IntRange(1, 3).Draw(t, "viewhi")
+				if k > n {
+					k = n
+				}
+				hi = n - k
+				subject = ast.F("a").With(ast.Step{Kind: ast.SSlice, Stop: ast.I64(int64(n - k))})
+			case 5:
+				a, b := rapid.IntRange(0, n).Draw(t, "viewa"), rapid.IntRange(0, n).Draw(t, "viewb")
+				if a > b {
+					a, b = b, a
+				}
+				lo, hi = a, b
+				subject = ast.F("a").With(ast.Step{Kind: ast.SSlice, Start: ast.I64(int64(a)), Stop: ast.I64(int64(b))})
+			case 6:
+				prune = false
+				subject = ast.Call(gen.Pick(t, "viewfn", []string{"to_array", "not_null"}), ast.A(ast.F("a")))
+			default:
+				prune = false
+				subject = ast.Bin("||", ast.F("a"), ast.F("missing"))
+				if n == 0 {
+					subject = ast.Bin("||", ast.F("missing"), ast.F("a"))
+				}
+			}
+			var in2, keys2 []jv.Val
+			for i := lo; i < hi; i++ {
+				if prune && in[i].K == jv.Null {
+					continue
+				}
+				in2 = append(in2, in[i])
+				keys2 = append(keys2, keys[i])
+			}
+			in, keys, n = in2, keys2, len(in2)
+			c.Label("subject-is-a-view")
+		}
 		// the array is in the error direction iff some key is neither number
 		// nor string, or numbers and strings are mixed
 		bad = false
@@ -255,7 +312,6 @@ func TestC13_Sort(t *testing.T) {
 				bad = true
 			}
 		}
-		doc := jv.VObj([]jv.Member{{K: "a", V: jv.VArr(in)}})
 		var e ast.Expr
 		if by {
 			ref := ast.Expr(ast.F("k"))
@@ -275,12 +331,12 @@ func TestC13_Sort(t *testing.T) {
 				ref = ast.Call("not_null", ast.A(ast.Var("missing")), ast.A(ast.F("k")))
 				letVar = true
 			}
-			e = ast.Call(fn, ast.A(ast.F("a")), ast.Ref(ref))
+			e = ast.Call(fn, ast.A(subject), ast.Ref(ref))
 			if letVar {
 				e = &ast.Let{Names: []string{"d", "missing"}, Vals: []ast.Expr{ast.Lit(jv.VInt(1)), ast.Lit(jv.VNull())}, Body: e}
 			}
 		} else {
-			e = ast.Call(fn, ast.A(ast.F("a")))
+			e = ast.Call(fn, ast.A(subject))
 		}
 		if fn == "sort_by" && !bad && rapid.IntRange(0, 3).Draw(t, "selected") == 0 {
 			// a selector applied to the sorted array: stability fixes the whole
